@@ -860,13 +860,23 @@ Qed.
 
 Theorem set_root_keeps d n :
   is_tag n = true ->
-  set_root d (loose n) = Some {| prologue := prologue d; root := n; epilogue := epilogue d |}.
+  set_root false d (loose n) = Some {| prologue := prologue d; root := n; epilogue := epilogue d |}.
 Proof.
   intros H. unfold set_root. cbn [loose root]. rewrite H, copy_root_siblings_spec.
-  cbn [loose prologue epilogue root app]. rewrite app_nil_r. reflexivity.
+  cbn [loose prologue epilogue root app negb]. rewrite app_nil_r. reflexivity.
 Qed.
 
-Theorem set_root_rejects d tgt : is_tag (root tgt) = false -> set_root d tgt = None.
+(* document.root = document.root leaves the document as it is *)
+Theorem set_root_self d : is_tag (root d) = true -> set_root true d d = Some d.
+Proof. intros H. unfold set_root. rewrite H. reflexivity. Qed.
+
+(* what it did before e27f40b: the root's own siblings were copied next to it once more *)
+Lemma copy_root_siblings_self d :
+  copy_root_siblings d d
+  = {| prologue := prologue d ++ prologue d; root := root d; epilogue := epilogue d ++ epilogue d |}.
+Proof. apply copy_root_siblings_spec. Qed.
+
+Theorem set_root_rejects same d tgt : is_tag (root tgt) = false -> set_root same d tgt = None.
 Proof. intros H. unfold set_root. rewrite H. reflexivity. Qed.
 
 (* ------------------------------------------------------------------------------------------ *)
